@@ -249,3 +249,276 @@ Proof.
   - apply in_flat_map in Hin. destruct Hin as (k & _ & Hin).
     destruct (existsb _ _); [destruct Hin|destruct Hin as [<-|[]]; exact I].
 Qed.
+
+(** ** index / foreign-key / check targets, for drivers whose Normalize keeps the children of
+    both tables (name-preserving drivers; the SQLite driver is not one: it renames
+    sqlite_autoindex_* indexes and rewrites foreign-key symbols) *)
+Definition child_target (a b : table) (x : change) : Prop :=
+  match x with
+  | AddColumn n => exists c, In c (t_cols b) /\ c_name c = n
+  | DropColumn n | ModifyColumn n _ => exists c, In c (t_cols a) /\ c_name c = n
+  | AddIndex n => exists i, In i (t_idx b) /\ i_name i = n
+  | DropIndex n | ModifyIndex n _ => exists i, In i (t_idx a) /\ i_name i = n
+  | AddForeignKey s => exists f, In f (t_fks b) /\ f_symbol f = s
+  | DropForeignKey s | ModifyForeignKey s _ => exists f, In f (t_fks a) /\ f_symbol f = s
+  | AddCheck n _ => exists k, In k (t_checks b) /\ k_name k = n
+  | DropCheck n _ => exists k, In k (t_checks a) /\ k_name k = n
+  | ModifyCheck n _ n2 _ => (exists k, In k (t_checks a) /\ k_name k = n) /\ (exists k, In k (t_checks b) /\ k_name k = n2)
+  | _ => True
+  end.
+
+Definition norm_keeps_children (D : DiffDriver) : Prop :=
+  forall a b a' b', dd_normalize D a b = Some (a', b') ->
+    (t_cols a' = t_cols a /\ t_idx a' = t_idx a /\ t_fks a' = t_fks a /\ t_checks a' = t_checks a)
+    /\ (t_cols b' = t_cols b /\ t_idx b' = t_idx b /\ t_fks b' = t_fks b /\ t_checks b' = t_checks b).
+Definition attr_targets (D : DiffDriver) : Prop :=
+  forall a b l x, dd_table_attr_diff D a b = Some l -> In x l -> child_target a b x.
+
+Section Plan2.
+Variable D : DiffDriver.
+Variable skip : tag -> bool.
+
+Lemma add_or_skip_sub l x : In x (add_or_skip skip l) -> In x l.
+Proof. unfold add_or_skip. intros H. apply filter_In in H. apply H. Qed.
+
+Lemma index_diff_from_targets a b l : forall ex r ex', index_diff_from D a b l ex = (r, ex') ->
+  forall x, In x r -> match x with
+                      | DropIndex n | ModifyIndex n _ => exists i, In i l /\ i_name i = n
+                      | _ => False end.
+Proof.
+  induction l as [|i l IH]; intros ex r ex' H x Hx; simpl in H.
+  - inversion H; subst. destruct Hx.
+  - assert (Hup : forall r0 ex0 ex1, index_diff_from D a b l ex0 = (r0, ex1) -> In x r0 ->
+              match x with DropIndex n | ModifyIndex n _ => exists i0, In i0 (i :: l) /\ i_name i0 = n | _ => False end).
+    { intros r0 ex0 ex1 E Hin. specialize (IH ex0 r0 ex1 E x Hin).
+      destruct x; try exact IH; destruct IH as (i0 & Hi0 & E0); exists i0; (split; [right; exact Hi0|exact E0]). }
+    destruct (find_idx (i_name i) (t_idx b)) as [[k i2]|].
+    + destruct (index_diff_from D a b l (k :: ex)) as [r0 ex0] eqn:E. inversion H; subst.
+      destruct (N.eqb (index_change D i i2) 0); [eapply Hup; eassumption|].
+      destruct Hx as [<-|Hx]; [exists i; split; [left; reflexivity|reflexivity]|eapply Hup; eassumption].
+    + destruct (if dd_is_generated_index_name D a i then similar_unnamed_index D b i else None).
+      * eapply Hup; eassumption.
+      * destruct (index_diff_from D a b l ex) as [r0 ex0] eqn:E. inversion H; subst.
+        destruct Hx as [<-|Hx]; [exists i; split; [left; reflexivity|reflexivity]|eapply Hup; eassumption].
+Qed.
+
+Lemma index_diff_add_targets a l : forall k ex x, In x (index_diff_add a k l ex) ->
+  exists i, In i l /\ x = AddIndex (i_name i).
+Proof.
+  induction l as [|i l IH]; intros k ex x Hx; simpl in Hx; [destruct Hx|].
+  apply in_app_or in Hx. destruct Hx as [Hx|Hx].
+  - destruct (existsb (Nat.eqb k) ex); [destruct Hx|]. destruct (find_idx (i_name i) (t_idx a)); [destruct Hx|].
+    destruct Hx as [<-|[]]. exists i. split; [left; reflexivity|reflexivity].
+  - destruct (IH _ _ _ Hx) as (i0 & Hi0 & E). exists i0. split; [right; exact Hi0|exact E].
+Qed.
+
+Lemma index_diff_t_targets a b x : In x (index_diff_t D skip a b) -> child_target a b x.
+Proof.
+  unfold index_diff_t. destruct (index_diff_from D a b (t_idx a) []) as [dm ex] eqn:E.
+  intros Hx. apply add_or_skip_sub in Hx. apply in_app_or in Hx. destruct Hx as [Hx|Hx].
+  - pose proof (index_diff_from_targets a b (t_idx a) [] dm ex E x Hx) as Ht.
+    destruct x; simpl; try exact I; try exact Ht; destruct Ht.
+  - destruct (index_diff_add_targets a (t_idx b) 0 ex x Hx) as (i & Hi & ->). simpl. exists i. split; [exact Hi|reflexivity].
+Qed.
+
+Lemma fk_diff_targets a b x : In x (fk_diff D skip a b) -> child_target a b x.
+Proof.
+  unfold fk_diff. intros Hx. apply add_or_skip_sub in Hx. apply in_app_or in Hx.
+  destruct Hx as [Hx|Hx]; apply in_flat_map in Hx; destruct Hx as (f & Hf & Hx).
+  - destruct (find_fk (f_symbol f) (t_fks b)); [destruct (N.eqb _ 0); [destruct Hx|]|];
+      destruct Hx as [<-|[]]; simpl; exists f; (split; [exact Hf|reflexivity]).
+  - destruct (find_fk (f_symbol f) (t_fks a)); [destruct Hx|]. destruct Hx as [<-|[]]. simpl. exists f. split; [exact Hf|reflexivity].
+Qed.
+
+Lemma pk_diff_targets a b x : In x (pk_diff D skip a b) -> child_target a b x.
+Proof.
+  unfold pk_diff. destruct (t_pk a), (t_pk b); try (intros []);
+    repeat match goal with |- context [if ?c then _ else _] => destruct c end;
+    try (intros []); intros Hx; apply add_or_skip_sub in Hx; destruct Hx as [<-|[]]; exact I.
+Qed.
+
+Lemma column_targets_child a b l x : column_diff D skip a b = Some l -> In x l -> child_target a b x.
+Proof.
+  intros H Hx. pose proof (column_diff_targets D skip a b l H x Hx) as Ht.
+  assert (Hk : match x with AddColumn _ | DropColumn _ | ModifyColumn _ _ => True | _ => False end).
+  { unfold column_diff in H. destruct (column_diff_drop_modify D a b (t_cols a)) as [dm|] eqn:E; [|discriminate].
+    inversion H; subst. apply add_or_skip_sub in Hx. apply in_app_or in Hx. destruct Hx as [Hx|Hx].
+    - pose proof (drop_modify_targets D a b (t_cols a) dm E x Hx) as Hd. destruct x; try exact I; destruct Hd.
+    - unfold column_diff_add in Hx. apply in_flat_map in Hx. destruct Hx as (c1 & _ & Hx).
+      destruct (find_col (c_name c1) (t_cols a)); [destruct Hx|]. destruct Hx as [<-|[]]. exact I. }
+  destruct x; try destruct Hk; exact Ht.
+Qed.
+
+Hypothesis Hnorm : norm_keeps_children D.
+Hypothesis Hattr : attr_targets D.
+
+Lemma child_target_ext a b a' b' x :
+  t_cols a' = t_cols a -> t_idx a' = t_idx a -> t_fks a' = t_fks a -> t_checks a' = t_checks a ->
+  t_cols b' = t_cols b -> t_idx b' = t_idx b -> t_fks b' = t_fks b -> t_checks b' = t_checks b ->
+  child_target a' b' x -> child_target a b x.
+Proof. intros E1 E2 E3 E4 E5 E6 E7 E8 H. unfold child_target in *. rewrite E1, E2, E3, E4, E5, E6, E7, E8 in H. exact H. Qed.
+
+Lemma table_diff_child_targets a b l : table_diff D skip a b = Some l -> forall x, In x l -> child_target a b x.
+Proof.
+  unfold table_diff. destruct (dd_normalize D (set_t_name a (t_name b)) b) as [[a' b']|] eqn:En; [|discriminate].
+  destruct (Hnorm _ _ _ _ En) as [(A1 & A2 & A3 & A4) (B1 & B2 & B3 & B4)]. simpl in A1, A2, A3, A4.
+  destruct (dd_table_attr_diff D a' b') as [attrs|] eqn:Ea; [|discriminate].
+  destruct (column_diff D skip a' b') as [cols|] eqn:Ec; [|discriminate].
+  intros H x Hx. inversion H; subst.
+  apply (child_target_ext a b a' b' x A1 A2 A3 A4 B1 B2 B3 B4).
+  repeat (apply in_app_or in Hx; destruct Hx as [Hx|Hx]).
+  - eapply Hattr; eassumption.
+  - eapply column_targets_child; eassumption.
+  - apply pk_diff_targets; exact Hx.
+  - apply index_diff_t_targets; exact Hx.
+  - apply fk_diff_targets; exact Hx.
+Qed.
+
+Definition table_target2 (from to : schema) (c : schange) : Prop :=
+  match c with
+  | DropTable n => exists t, In t (s_tables from) /\ t_name t = n
+  | AddTable n => exists t, In t (s_tables to) /\ t_name t = n
+  | ModifyTable n ch => exists t1 t2, In t1 (s_tables from) /\ In t2 (s_tables to) /\ t_name t1 = n /\ t_name t2 = n
+                                      /\ forall x, In x ch -> child_target t1 t2 x
+  end.
+
+Lemma schema_diff_from_targets2 from to l : (forall t, In t l -> In t (s_tables from)) ->
+  forall r, schema_diff_from D skip to l = Some r -> forall c, In c r -> table_target2 from to c.
+Proof.
+  induction l as [|t1 l IH]; intros Hsub r Hr c Hc; simpl in Hr.
+  - inversion Hr; subst. destruct Hc.
+  - assert (Hsub' : forall t, In t l -> In t (s_tables from)) by (intros t Ht; apply Hsub; right; exact Ht).
+    destruct (find_table (t_name t1) (s_tables to)) as [t2|] eqn:Ef.
+    + destruct (table_diff D skip t1 t2) as [ch|] eqn:Et; [|discriminate].
+      destruct (schema_diff_from D skip to l) as [r'|]; [|discriminate]. inversion Hr; subst.
+      apply in_app_or in Hc. destruct Hc as [Hc|Hc]; [|eapply IH; eauto].
+      destruct ch as [|x0 ch]; [destruct Hc|]. unfold add_or_skip_s in Hc. simpl in Hc.
+      destruct (negb (skip TgModifyTable)); [|destruct Hc]. destruct Hc as [<-|[]].
+      apply find_table_some in Ef. destruct Ef as [Hin2 Hn2]. simpl.
+      exists t1, t2. repeat split; try assumption; [apply Hsub; left; reflexivity|congruence|].
+      intros x Hx. eapply table_diff_child_targets; eassumption.
+    + destruct (schema_diff_from D skip to l) as [r'|]; [|discriminate]. inversion Hr; subst.
+      apply in_app_or in Hc. destruct Hc as [Hc|Hc]; [|eapply IH; eauto].
+      unfold add_or_skip_s in Hc. simpl in Hc. destruct (negb (skip TgDropTable)); [|destruct Hc]. destruct Hc as [<-|[]].
+      simpl. exists t1. split; [apply Hsub; left; reflexivity|reflexivity].
+Qed.
+
+Theorem SchemaDiff_targets2 from to cs : SchemaDiff D skip from to = Some cs ->
+  forall c, In c cs -> table_target2 from to c.
+Proof.
+  unfold SchemaDiff. destruct (negb _); [discriminate|].
+  destruct (schema_diff_from D skip to (s_tables from)) as [r|] eqn:E; [|discriminate].
+  intros H c Hc. inversion H; subst. apply in_app_or in Hc. destruct Hc as [Hc|Hc].
+  - eapply schema_diff_from_targets2; [|exact E|exact Hc]. auto.
+  - unfold schema_diff_add, add_or_skip_s in Hc. apply filter_In in Hc. destruct Hc as [Hc _].
+    apply in_flat_map in Hc. destruct Hc as (t1 & Ht1 & Hc).
+    destruct (find_table (t_name t1) (s_tables from)); [destruct Hc|]. destruct Hc as [<-|[]].
+    simpl. exists t1. split; [exact Ht1|reflexivity].
+Qed.
+End Plan2.
+
+Lemma idx_hit_strict_le li L : forall cols i, idx_hit li L cols i = false -> idx_hit_strict L i = false.
+Proof.
+  induction L as [|v L IH]; intros cols i H; [reflexivity|].
+  simpl in H. apply orb_false_elim in H. destruct H as [H1 H2].
+  unfold idx_hit_strict in *. simpl. rewrite (IH _ _ H2). unfold sel.
+  destruct (admits typeI v); [|reflexivity]. simpl in *. apply orb_false_elim in H1. destruct H1 as [H1 _]. rewrite H1. reflexivity.
+Qed.
+
+Lemma fk_hit_strict_le lf L : forall cols f, fk_hit lf L cols f = false -> fk_hit_strict L f = false.
+Proof.
+  induction L as [|v L IH]; intros cols f H; [reflexivity|].
+  simpl in H. apply orb_false_elim in H. destruct H as [H1 H2].
+  unfold fk_hit_strict in *. simpl. rewrite (IH _ _ H2). unfold sel.
+  destruct (admits typeF v); [|reflexivity]. simpl in *. apply orb_false_elim in H1. destruct H1 as [H1 _]. rewrite H1. reflexivity.
+Qed.
+
+(** a child (column / index / foreign key / check) of the original table that no chain selects by name *)
+Definition unselected_child (L1 L2 : list bytes) (t1 t2 : table) (x : change) : Prop :=
+  match x with
+  | AddColumn n => exists c, In c (t_cols t2) /\ c_name c = n /\ col_hit L2 c = false
+  | DropColumn n | ModifyColumn n _ => exists c, In c (t_cols t1) /\ c_name c = n /\ col_hit L1 c = false
+  | AddIndex n => exists i, In i (t_idx t2) /\ i_name i = n /\ idx_hit_strict L2 i = false
+  | DropIndex n | ModifyIndex n _ => exists i, In i (t_idx t1) /\ i_name i = n /\ idx_hit_strict L1 i = false
+  | AddForeignKey s => exists f, In f (t_fks t2) /\ f_symbol f = s /\ fk_hit_strict L2 f = false
+  | DropForeignKey s | ModifyForeignKey s _ => exists f, In f (t_fks t1) /\ f_symbol f = s /\ fk_hit_strict L1 f = false
+  | AddCheck n _ => exists k, In k (t_checks t2) /\ k_name k = n /\ check_hit L2 k = false
+  | DropCheck n _ => exists k, In k (t_checks t1) /\ k_name k = n /\ check_hit L1 k = false
+  | ModifyCheck n _ n2 _ => (exists k, In k (t_checks t1) /\ k_name k = n /\ check_hit L1 k = false)
+                            /\ (exists k, In k (t_checks t2) /\ k_name k = n2 /\ check_hit L2 k = false)
+  | _ => True
+  end.
+
+Lemma filter_negb_in {A} (h : A -> bool) l x : In x (filter (fun y => negb (h y)) l) -> In x l /\ h x = false.
+Proof. intros H. apply filter_In in H. destruct H as [H1 H2]. split; [exact H1|]. destruct (h x); [discriminate|reflexivity]. Qed.
+
+Lemma child_target_unselected link1 link2 L1 L2 t1 t2 x :
+  child_target (ref_table link1 L1 t1) (ref_table link2 L2 t2) x -> unselected_child L1 L2 t1 t2 x.
+Proof.
+  unfold child_target, unselected_child, ref_table. simpl.
+  destruct x; try exact (fun H => H);
+    try (intros (y & Hy & E); apply filter_negb_in in Hy; destruct Hy as [Hy Hh]; exists y;
+         repeat split; try assumption; try (eapply idx_hit_strict_le; eassumption); try (eapply fk_hit_strict_le; eassumption)).
+  intros [(y & Hy & E) (z & Hz & E')]. apply filter_negb_in in Hy, Hz. destruct Hy as [Hy Hh], Hz as [Hz Hh'].
+  split; [exists y|exists z]; repeat split; assumption.
+Qed.
+
+Definition unexcluded_target2 (G : list (list bytes)) (from to : schema) (c : schange) : Prop :=
+  match c with
+  | DropTable n => exists t, In t (s_tables from) /\ t_name t = n /\ table_hit G from t = false
+  | AddTable n => exists t, In t (s_tables to) /\ t_name t = n /\ table_hit G to t = false
+  | ModifyTable n ch =>
+      exists t1 t2, In t1 (s_tables from) /\ In t2 (s_tables to) /\ t_name t1 = n /\ t_name t2 = n
+        /\ table_hit G from t1 = false /\ table_hit G to t2 = false
+        /\ forall x, In x ch -> unselected_child (child_globs G from t1) (child_globs G to t2) t1 t2 x
+  end.
+
+Theorem plan_ignores_excluded2 D skip link1 link2 G from to cs :
+  norm_keeps_children D -> attr_targets D ->
+  SchemaDiff D skip (ref_schema link1 G from) (ref_schema link2 G to) = Some cs ->
+  forall c, In c cs -> unexcluded_target2 G from to c.
+Proof.
+  intros Hn Ha H c Hc. pose proof (SchemaDiff_targets2 D skip Hn Ha _ _ _ H c Hc) as Ht.
+  destruct c as [n|n|n ch]; unfold table_target2 in Ht; unfold unexcluded_target2.
+  - destruct Ht as (t' & Hin & En). apply ref_schema_table in Hin. destruct Hin as (t & Hin' & Hh & Et). subst t'.
+    exists t. repeat split; assumption.
+  - destruct Ht as (t' & Hin & En). apply ref_schema_table in Hin. destruct Hin as (t & Hin' & Hh & Et). subst t'.
+    exists t. repeat split; assumption.
+  - destruct Ht as (t1' & t2' & Hin1 & Hin2 & En1 & En2 & Hch).
+    apply ref_schema_table in Hin1. destruct Hin1 as (t1 & Hin1' & Hh1 & Et1). subst t1'.
+    apply ref_schema_table in Hin2. destruct Hin2 as (t2 & Hin2' & Hh2 & Et2). subst t2'.
+    exists t1, t2. repeat split; try assumption.
+    intros x Hx. apply (child_target_unselected link1 link2). apply Hch. exact Hx.
+Qed.
+
+(** the SQLite TableAttrDiff names only checks of the two tables *)
+Lemma sqlite_attr_targets_gen a b l x : sqlite_table_attr_diff a b = Some l -> In x l -> child_target a b x.
+Proof.
+  unfold sqlite_table_attr_diff. intros H Hin. inversion H; subst; clear H.
+  repeat (apply in_app_or in Hin; destruct Hin as [Hin|Hin]).
+  - destruct (t_without_rowid a && negb (t_without_rowid b)); [destruct Hin as [<-|[]]; exact I|].
+    destruct (negb (t_without_rowid a) && t_without_rowid b); [destruct Hin as [<-|[]]; exact I|destruct Hin].
+  - destruct (t_strict a && negb (t_strict b)); [destruct Hin as [<-|[]]; exact I|].
+    destruct (negb (t_strict a) && t_strict b); [destruct Hin as [<-|[]]; exact I|destruct Hin].
+  - apply in_flat_map in Hin. destruct Hin as (k & Hk & Hin).
+    destruct (find _ (t_checks b)) as [k2|] eqn:Ef.
+    + apply find_some in Ef. destruct Ef as [Hk2 _].
+      destruct (negb _); [destruct Hin as [<-|[]]|destruct Hin]. simpl.
+      split; [exists k|exists k2]; (split; [assumption|reflexivity]).
+    + destruct Hin as [<-|[]]. simpl. exists k. split; [exact Hk|reflexivity].
+  - apply in_flat_map in Hin. destruct Hin as (k & Hk & Hin).
+    destruct (existsb _ _); [destruct Hin|]. destruct Hin as [<-|[]]. simpl. exists k. split; [exact Hk|reflexivity].
+Qed.
+
+(** a name-preserving instance: the SQLite callbacks with an identity Normalize *)
+Definition plain_driver : DiffDriver :=
+  mkDriver sqlite_column_change sqlite_index_attr_changed (fun _ _ _ => false)
+           (fun _ _ => false) None sqlite_reference_changed (fun _ _ => false)
+           sqlite_table_attr_diff (fun a b => Some (a, b)) true.
+
+Lemma plain_driver_ok : norm_keeps_children plain_driver /\ attr_targets plain_driver.
+Proof.
+  split.
+  - intros a b a' b' H. simpl in H. inversion H; subst. repeat split; reflexivity.
+  - intros a b l x H Hin. simpl in H. eapply sqlite_attr_targets_gen; eassumption.
+Qed.
